@@ -15,6 +15,14 @@ Docs == ndJsonDeserialize(IOEnv.DOCS)
 CONSTANTS Emit,
           Ghosts      \* TRUE: object streams may carry an unreferenced duplicate member (C08 file set only)
 
+\* Which of the features beyond the statement of C02 the Producer may use.  A definition, not a constant: the
+\* configurations of the listed properties leave it alone ("off": no knob below exists, every file is what it
+\* always was); Gen_File_free.cfg / Gen_File_hybrid.cfg / Gen_File_beyond.cfg replace it (Beyond <- BeyondFree ...).
+Beyond == "off"
+BeyondFree == "free"          \* free-list styles for documents whose updates delete objects
+BeyondHybrid == "hybrid"      \* hybrid-reference sections (table + XRefStm)
+BeyondBoth == "freehybrid"
+
 VARIABLES di,     \* index of the document being produced
           fin     \* set by the single-successor Finish step (one REPLAY line per behaviour)
 
@@ -26,6 +34,7 @@ FileDoc(j) ==
      revs |-> [r \in 1..Len(j.revs) |->
                  [objs |-> ObjsOf(j.revs[r].objects),
                   trailer |-> DictOfPairs(j.revs[r].trailer),
+                  free |-> IF "free" \in DOMAIN j.revs[r] THEN [i \in 1..Len(j.revs[r].free) |-> [num |-> j.revs[r].free[i][1], gen |-> j.revs[r].free[i][2]]] ELSE <<>>,
                   comp |-> [c \in 1..Len(j.revs[r].comp) |->
                               [cnum |-> j.revs[r].comp[c].cnum,
                                members |-> [m \in 1..Len(j.revs[r].comp[c].members) |->
@@ -34,7 +43,8 @@ FileDoc(j) ==
 JunkChoices == { <<>>, <<106, 117, 110, 107, 10>>, <<0, 255, 37, 80, 68, 13, 10, 32>> }
 WChoices == { <<1, 2, 1>>, <<1, 4, 2>>, <<1, 3, 0>>, <<0, 2, 2>>, <<2, 8, 2>> }
 
-MaxGen(doc) == FoldLeft(LAMBDA acc, r : FoldLeft(LAMBDA a2, o : IF o.gen > a2 THEN o.gen ELSE a2, acc, doc.revs[r].objs), 0, [r \in 1..Len(doc.revs) |-> r])
+MaxGen(doc) == FoldLeft(LAMBDA acc, r : FoldLeft(LAMBDA a2, o : IF o.gen > a2 THEN o.gen ELSE a2, acc, doc.revs[r].objs \o doc.revs[r].free), 0, [r \in 1..Len(doc.revs) |-> r])
+HasFree(doc) == \E r \in 1..Len(doc.revs) : doc.revs[r].free # <<>>
 
 Init ==
     /\ di \in 1..Len(Docs)
@@ -52,7 +62,24 @@ PlanXref ==
     /\ PlanStep("xref")
     /\ \E xref \in {"table1", "tableN", "stream1", "streamN"}, order \in {"asc", "desc"} :
           /\ (Len(TheDoc.revs) > 1 => xref \in {"tableN", "streamN"})          \* updates list only what changed
-          /\ plan' = [k |-> [xref |-> xref, order |-> order]]
+          /\ plan' = [k |-> [xref |-> xref, order |-> order] @@ PlainKnobs]
+    /\ PlanNext(IF Beyond = "off" THEN "w" ELSE "beyond") /\ UNCHANGED <<out, offs, outer, moffs>>
+
+\* (only when Beyond # "off") free-list style; which revisions are hybrid-reference sections and how they hide
+HybridChoices(doc) ==
+    LET can == {r \in 1..Len(doc.revs) : doc.revs[r].comp # <<>>}
+        newest == IF can = {} THEN {} ELSE {CHOOSE r \in can : \A q \in can : q <= r}
+        oldest == IF can = {} THEN {} ELSE {CHOOSE r \in can : \A q \in can : r <= q}
+    IN {{}, can, newest, oldest}
+PlanBeyond ==
+    /\ PlanStep("beyond")
+    /\ \E hybrid \in HybridChoices(TheDoc), hycont \in {"stm", "intable"}, hyself \in {"stm", "intable"}, hymark \in {"free", "unlisted"},
+          flink \in {"zero", "chain"} :
+          /\ (hybrid # {} => Beyond \in {"hybrid", "freehybrid"} /\ plan.k.xref \in {"table1", "tableN"})
+          /\ (Beyond = "hybrid" /\ plan.k.xref \in {"table1", "tableN"} /\ HasComp(TheDoc) => hybrid # {})
+          /\ (hybrid = {} => hycont = "stm" /\ hyself = "stm" /\ hymark = "free")                   \* unused knobs fixed
+          /\ (flink = "chain" => Beyond \in {"free", "freehybrid"} /\ HasFree(TheDoc))
+          /\ plan' = [k |-> [hybrid |-> hybrid, hycont |-> hycont, hyself |-> hyself, hymark |-> hymark, flink |-> flink] @@ plan.k]
     /\ PlanNext("w") /\ UNCHANGED <<out, offs, outer, moffs>>
 
 PlanW ==
@@ -60,9 +87,9 @@ PlanW ==
     /\ \E w \in WChoices, noindex \in BOOLEAN, selfgap \in BOOLEAN :
           /\ (selfgap => plan.k.xref \in {"stream1", "streamN"} /\ FreeBelow(TheDoc) # {})
           /\ (w[3] = 0 => MaxGen(TheDoc) = 0) /\ (w[3] = 1 => MaxGen(TheDoc) <= 255)   \* generations must fit field 3
-          /\ (w[1] = 0 => plan.k.xref # "stream1")
+          /\ (w[1] = 0 => plan.k.xref # "stream1" /\ ~HasFree(TheDoc))                   \* free entries need the type field
           /\ ((w[1] = 0 \/ w[3] = 0) => ~HasComp(TheDoc))                                \* type-2 entries need fields 1 and 3
-          /\ (plan.k.xref \in {"table1", "tableN"} => w = <<1, 2, 1>> /\ ~noindex)      \* irrelevant for tables
+          /\ (plan.k.xref \in {"table1", "tableN"} => (plan.k.hybrid = {} => w = <<1, 2, 1>>) /\ ~noindex)   \* irrelevant for tables without XRefStm
           /\ plan' = [k |-> plan.k @@ [w |-> w, noindex |-> noindex, selfgap |-> selfgap]]
     /\ PlanNext("misc") /\ UNCHANGED <<out, offs, outer, moffs>>
 
@@ -80,7 +107,7 @@ PlanMisc ==
 PlanFilter ==
     /\ PlanStep("filter")
     /\ \E sfilter \in {"none", "flate", "pred"} :
-          /\ (plan.k.xref \in {"table1", "tableN"} => sfilter = "none")
+          /\ (plan.k.xref \in {"table1", "tableN"} /\ plan.k.hybrid = {} => sfilter = "none")
           /\ plan' = [k |-> plan.k @@ [sfilter |-> sfilter]]
     /\ PlanNext("fparams") /\ UNCHANGED <<out, offs, outer, moffs>>
 
@@ -92,7 +119,7 @@ PlanFilterParams ==
              IN plan' = InitPlan(TheDoc, k) /\ todo' = FilePlan(TheDoc, k)
     /\ UNCHANGED <<out, offs, outer, moffs>>
 
-Plan == PlanXref \/ PlanW \/ PlanMisc \/ PlanFilter \/ PlanFilterParams
+Plan == PlanXref \/ PlanW \/ PlanMisc \/ PlanFilter \/ PlanFilterParams \/ PlanBeyond
 
 Finish == todo = <<>> /\ ~fin /\ fin' = TRUE /\ UNCHANGED <<pvars, di>>
 
@@ -106,9 +133,21 @@ Done == fin
 \* in cross-reference-stream files additionally the XRef streams and the object-stream containers
 ExpectedVal(v) == IF v.k = "stream" THEN OStream(StreamDictWritten([val |-> v], 0), v.w) ELSE v
 
-BookKeysF == {NameSize, NameType, NameW, NameIndex, NameLength, NamePrev, NameFilter, NameDecodeParms}
+BookKeysF == {NameSize, NameType, NameW, NameIndex, NameLength, NamePrev, NameFilter, NameDecodeParms, NameXRefStm}
 
-ContainerNums == IF UseComp(K) THEN UNION {{Doc.revs[r].comp[c].cnum : c \in 1..Len(Doc.revs[r].comp)} : r \in 1..Len(Doc.revs)} ELSE {}
+\* revisions whose comp members live in real object streams
+CompRevs == IF UseComp(K) THEN 1..Len(Doc.revs) ELSE K.hybrid
+ContainerNumsUpTo(j) == UNION {{Doc.revs[r].comp[c].cnum : c \in 1..Len(Doc.revs[r].comp)} : r \in CompRevs \cap 1..j}
+ContainerNums == ContainerNumsUpTo(Len(Doc.revs))
+
+\* numbers that are in use only through the XRefStm stream of hybrid-reference revision r (without that stream itself)
+HiddenOfRev(r) ==
+    IF r \notin K.hybrid THEN {}
+    ELSE (IF K.hycont = "stm" THEN {Doc.revs[r].comp[c].cnum : c \in 1..Len(Doc.revs[r].comp)} ELSE {})
+         \cup UNION {{Doc.revs[r].comp[c].members[m].num : m \in 1..Len(Doc.revs[r].comp[c].members)} : c \in 1..Len(Doc.revs[r].comp)}
+\* ... that are still the newest definition of their number after revision j
+HiddenUpTo(j) ==
+    FoldLeft(LAMBDA acc, r : ((acc \ DefNumsOf(Doc.revs[r])) \ FreeNumsOf(Doc.revs[r])) \cup HiddenOfRev(r), {}, [r \in 1..j |-> r])
 
 RoundTrip ==
     Done => LET rd == RdFile(out)
@@ -124,10 +163,124 @@ RoundTrip ==
                   /\ rd.view[n].val = ExpectedVal(vw[n].val)
             /\ (DOMAIN rd.view \ rd.xrefobjs) \ ContainerNums = DOMAIN vw
             /\ MapDel(rd.trailer, BookKeysF) = MapDel(Doc.revs[Len(Doc.revs)].trailer, BookKeysF)
+            \* free entries: the deleted numbers with the generation of their next use; the linked list when the Producer chained it
+            /\ HistoryOk(Doc.revs)
+            /\ Freed(rd) = NextGenUpTo(Doc.revs, Len(Doc.revs))
+            /\ (K.flink = "chain" => LET l == FreeList(rd) IN
+                                        l.closed /\ l.list = SortSeq(SetToSeq(Deleted(Doc.revs)), LAMBDA a, b : a < b))
+            \* hybrid-reference sections: which they are, and which objects only their XRefStm stream makes visible
+            /\ HybridRevs(rd) = K.hybrid
+            /\ Hidden(rd) = HiddenUpTo(Len(Doc.revs))
+
+-----------------------------------------------------------------------------
+(* Impl-shaped layer for the features beyond C02's statement: how lopdf's Reader::read resolves object       *)
+(* numbers through the cross-reference sections of such a file (reader.rs: `xref.merge` never replaces an     *)
+(* entry, so the order in which sections are merged is the lookup order), with one switch per deviation from  *)
+(* 7.5.4 / 7.5.8.4 read off the code:                                                                         *)
+(*   "needsprev"    XRefStm is looked at inside the loop over Prev only: never in a file whose newest         *)
+(*                  trailer has no Prev                                                                       *)
+(*   "afterprev"    the stream XRefStm names is merged after the section Prev names, not before it             *)
+(*   "newestonly"   only the newest trailer's XRefStm is used; the XRefStm of older sections never            *)
+(*   "freeignored"  `f` entries of tables and type-0 rows of streams are not recorded, so they hide nothing   *)
+(* With every switch off the model is the lookup order of the standard and must give Revisions!View           *)
+(* (invariant ImplRefines); with all of them on it predicts what lopdf returns for the file and for each of   *)
+(* its prefixes; with one switch on it tells which deviation a difference is owed to.                         *)
+
+LopdfDevs == {"needsprev", "afterprev", "newestonly", "freeignored"}
+
+PlainNumsOf(r) == {Doc.revs[r].objs[i].num : i \in 1..Len(Doc.revs[r].objs)}
+MemberNumsOf(r) == UNION {{Doc.revs[r].comp[c].members[m].num : m \in 1..Len(Doc.revs[r].comp[c].members)} : c \in 1..Len(Doc.revs[r].comp)}
+ContNumsOf(r) == {Doc.revs[r].comp[c].cnum : c \in 1..Len(Doc.revs[r].comp)}
+GroupOf(r, cnum) == Doc.revs[r].comp[CHOOSE c \in 1..Len(Doc.revs[r].comp) : Doc.revs[r].comp[c].cnum = cnum]
+ContOfMember(r, n) == Doc.revs[r].comp[CHOOSE c \in 1..Len(Doc.revs[r].comp) :
+                                          \E m \in 1..Len(Doc.revs[r].comp[c].members) : Doc.revs[r].comp[c].members[m].num = n].cnum
+HiddenPlainOf(r) ==
+    IF r \notin K.hybrid THEN {}
+    ELSE (IF K.hycont = "stm" THEN ContNumsOf(r) ELSE {}) \cup (IF K.hyself = "stm" THEN {SelfNum(Doc, r)} ELSE {})
+
+\* one section as a map  number -> [kind ("n" directly stored | "c" in object stream cont | "f" free), rev, cont]
+SecEntries(normal, comp, r) ==
+    [n \in normal \cup comp |-> IF n \in normal THEN [kind |-> "n", rev |-> r, inobj |-> 0]
+                                ELSE [kind |-> "c", rev |-> r, inobj |-> ContOfMember(r, n)]]
+\* the table (or the XRef stream of a cross-reference-stream file) of revision r
+MainSec(r) ==
+    SecEntries(PlainNumsOf(r)
+               \cup (IF r \in CompRevs THEN {} ELSE MemberNumsOf(r))
+               \cup (IF UseComp(K) THEN ContNumsOf(r) \cup {SelfNum(Doc, r)}
+                     ELSE IF r \in K.hybrid THEN (ContNumsOf(r) \cup {SelfNum(Doc, r)}) \ HiddenPlainOf(r) ELSE {}),
+               IF UseComp(K) THEN MemberNumsOf(r) ELSE {}, r)
+\* the stream its trailer's XRefStm names
+StmSec(r) == SecEntries(HiddenPlainOf(r), MemberNumsOf(r), r)
+FreeSec(r) == [n \in FreeNumsOf(Doc.revs[r]) |-> [kind |-> "f", rev |-> r, inobj |-> 0]]
+
+\* the sections in the order in which they are searched when the file ends after revision j
+SecOrder(j, dev) ==
+    LET newestStm == IF j \notin K.hybrid \/ (j = 1 /\ "needsprev" \in dev) THEN <<>> ELSE <<StmSec(j)>>
+        olderStm(r) == IF r \notin K.hybrid \/ "newestonly" \in dev THEN <<>> ELSE <<StmSec(r)>>
+        fr(r) == IF "freeignored" \in dev THEN <<>> ELSE <<FreeSec(r)>>
+        older(r) == <<MainSec(r)>> \o olderStm(r) \o fr(r)
+    IN IF j = 1 THEN <<MainSec(1)>> \o newestStm \o fr(1)
+       ELSE IF "afterprev" \in dev
+            THEN <<MainSec(j)>> \o fr(j) \o older(j - 1) \o newestStm \o Concat([i \in 1..(j - 2) |-> older(j - 1 - i)])
+            ELSE <<MainSec(j)>> \o newestStm \o fr(j) \o Concat([i \in 1..(j - 1) |-> older(j - i)])
+
+NoEntry == [kind |-> "none", rev |-> 0, inobj |-> 0]
+
+\* what the loader ends up with: user objects  number -> [gen, val]  and the object streams it holds
+LopdfObjs(j, dev) ==
+    LET order == SecOrder(j, dev)
+        nums == UNION {DOMAIN order[i] : i \in 1..Len(order)}
+        sel == [n \in nums |-> order[SelectInSeq(order, LAMBDA sec : n \in DOMAIN sec)][n]]
+        entryOf(n) == IF n \in nums THEN sel[n] ELSE NoEntry
+        direct == {n \in nums : sel[n].kind = "n"}
+        conts == {c \in direct : sel[c].rev \in CompRevs /\ c \in ContNumsOf(sel[c].rev)}
+        user == {n \in direct : n \in PlainNumsOf(sel[n].rev) \/ (sel[n].rev \notin CompRevs /\ n \in MemberNumsOf(sel[n].rev))}
+        directObjs == [n \in user |-> RevDefs(Doc.revs[sel[n].rev])[n]]
+        \* Reader::read: blocks sorted by container number; a member is skipped when its entry names another
+        \* container or a directly stored object, and never replaces an object that is already there
+        addMembers(acc, c) ==
+            FoldLeft(LAMBDA a, m : LET en == entryOf(m.num) IN
+                                   IF (en.kind = "c" /\ en.inobj # c) \/ en.kind \in {"n", "f"} \/ m.num \in DOMAIN a THEN a
+                                   ELSE MapPut(a, m.num, [gen |-> 0, val |-> m.val]),
+                     acc, GroupOf(sel[c].rev, c).members)
+    IN [objs |-> FoldLeft(addMembers, directObjs, SortSeq(SetToSeq(conts), LAMBDA a, b : a < b)), conts |-> conts]
+
+SortedSet(S) == SortSeq(SetToSeq(S), LAMBDA a, b : a < b)
+
+\* the difference to the declared view after revision j: numbers (and object streams) the loader lacks, numbers it
+\* holds with another definition, numbers it holds although they are deleted, and streams whose indirect Length
+\* it resolves differently (their data may or may not come out differently)
+Prediction(j, dev) ==
+    LET vw == ViewUpTo(Doc.revs, j)
+        P == LopdfObjs(j, dev)
+        wrong == {n \in DOMAIN P.objs \cap DOMAIN vw : P.objs[n] # vw[n]}
+        lenref(n) == IF P.objs[n].val.k = "stream" /\ Has(P.objs[n].val.v, NameLength) /\ P.objs[n].val.v[NameLength].k = "ref"
+                     THEN {P.objs[n].val.v[NameLength].v} ELSE {}
+    IN [missing |-> (DOMAIN vw \ DOMAIN P.objs) \cup (ContainerNumsUpTo(j) \ P.conts),
+        stale |-> wrong,
+        extra |-> DOMAIN P.objs \ DOMAIN vw,
+        maybe |-> {n \in DOMAIN P.objs : \E m \in lenref(n) : m \notin DOMAIN P.objs \/ m \notin DOMAIN vw \/ P.objs[m] # vw[m]}]
+NoDifference(p) == p.missing = {} /\ p.stale = {} /\ p.extra = {}
+
+\* the lookup order of the standard, written section by section like the loader's, defines the same objects as Revisions!View
+ImplRefines ==
+    (Done /\ Beyond # "off") => \A j \in 1..Len(Doc.revs) : NoDifference(Prediction(j, {}))
+
+PredictionJson(j) ==
+    LET p == Prediction(j, LopdfDevs)
+    IN [missing |-> SortedSet(p.missing), stale |-> SortedSet(p.stale), extra |-> SortedSet(p.extra), maybe |-> SortedSet(p.maybe),
+        owedto |-> {d \in LopdfDevs : ~NoDifference(Prediction(j, {d}))},
+        deleted |-> SortedSet(DeletedUpTo(Doc.revs, j)), hidden |-> SortedSet(HiddenUpTo(j))]
 
 EmitInv ==
     (Emit /\ Done) => PrintT(<<"REPLAY", ToJson([doc |-> di, bytes |-> out, xref |-> K.xref, w |-> K.w, order |-> K.order,
                                                   junk |-> K.junk, bin |-> K.bin, sfilter |-> K.sfilter, pngft |-> K.pngft, ghost |-> K.ghost, selfgap |-> K.selfgap, nrevs |-> Len(Doc.revs), cuts |-> plan.cuts,
-                                                  ncomp |-> IF UseComp(K) THEN Cardinality(ContainerNums) ELSE 0,
-                                                  redefined |-> Cardinality(Redefined(Doc.revs))])>>)
+                                                  ncomp |-> IF CompRevs # {} THEN Cardinality(ContainerNums) ELSE 0,
+                                                  redefined |-> Cardinality(Redefined(Doc.revs))]
+                                                 @@ (IF Beyond = "off" THEN <<>>
+                                                     ELSE [beyond |-> Beyond, hybrid |-> SortedSet(K.hybrid), hycont |-> K.hycont, hyself |-> K.hyself,
+                                                           hymark |-> K.hymark, flink |-> K.flink,
+                                                           nfree |-> Cardinality(UNION {FreeNumsOf(Doc.revs[r]) : r \in 1..Len(Doc.revs)}),
+                                                           reused |-> Cardinality({n \in DOMAIN View(Doc.revs) : \E r \in 1..Len(Doc.revs) : n \in FreeNumsOf(Doc.revs[r])}),
+                                                           pred |-> [j \in 1..Len(Doc.revs) |-> PredictionJson(j)]]))>>)
 =============================================================================
